@@ -80,7 +80,7 @@ def build_engine(c):
     schema["roots"] = {"query": "Query"}
     clean_registry()
     h = Harness(schema, {"default_fields": []}, None)
-    h.serve = lambda parent, obj, field, args, path: "ok"
+    h.serve = lambda rs, parent, obj, field, args, path: "ok"
     h.dargs = []
 
     def mk(name):
@@ -266,7 +266,7 @@ def rebuild(spec):
     schema = spec["schema"]
     clean_registry()
     h = Harness(schema, {"default_fields": []}, None)
-    h.serve = lambda parent, obj, field, args, path: "ok"
+    h.serve = lambda rs, parent, obj, field, args, path: "ok"
     h.dargs = []
 
     def mk(name):
